@@ -63,7 +63,7 @@ func (c spvChain) TxProofDifficultyFactor() (*big.Int, error) {
 	if c.in.fail == 3 {
 		return nil, errors.New("boom")
 	}
-	return new(big.Int).Set(c.in.f), nil
+	return c.in.f, nil // the same object on every call, like a caching chain handle
 }
 
 type diffChain struct {
@@ -82,7 +82,7 @@ func (c diffChain) GetCurrentAndPrevEpochDifficulty() (*big.Int, *big.Int, error
 	if c.in.fail == 5 {
 		return nil, nil, errors.New("boom")
 	}
-	return new(big.Int).Set(c.in.dCur), new(big.Int).Set(c.in.dPrev), nil
+	return c.in.dCur, c.in.dPrev, nil // the same objects on every call
 }
 
 func bigOf(s string) *big.Int {
@@ -104,24 +104,52 @@ func exec(op string) (string, string) {
 	}
 	var calls []string
 	var h bitcoin.Hash
-	within, acc, req, err := spv.VerifC32GetProofInfo(h, btcChain{in: in, calls: &calls}, spvChain{in: in}, diffChain{in: in})
-	if err != nil {
-		cls := "other"
-		for i, p := range []string{
-			"failed to get latest block height", "failed to get transaction confirmations",
-			"failed to get transaction proof difficulty factor", "failed to get current epoch",
-			"failed to get Bitcoin epoch difficulties"} {
-			if strings.HasPrefix(err.Error(), p) {
-				cls = fmt.Sprint(i + 1)
+	// The call is made twice against the same chain handles; the handles return the same
+	// *big.Int objects every time.  The FIRST result is the observation; a different second
+	// result, or a chain-owned value changed by the calls, is appended to it (the model and
+	// the monitor know neither suffix).
+	f0, dCur0, dPrev0 := new(big.Int).Set(in.f), new(big.Int).Set(in.dCur), new(big.Int).Set(in.dPrev)
+	run := func() string {
+		within, acc, req, err := spv.VerifC32GetProofInfo(h, btcChain{in: in, calls: &calls}, spvChain{in: in}, diffChain{in: in})
+		if err != nil {
+			cls := "other"
+			for i, p := range []string{
+				"failed to get latest block height", "failed to get transaction confirmations",
+				"failed to get transaction proof difficulty factor", "failed to get current epoch",
+				"failed to get Bitcoin epoch difficulties"} {
+				if strings.HasPrefix(err.Error(), p) {
+					cls = fmt.Sprint(i + 1)
+				}
 			}
+			return "err:" + cls
 		}
-		return "err:" + cls, "err"
+		w := 0
+		if within {
+			w = 1
+		}
+		return fmt.Sprintf("info %d %d %d", w, acc, req)
 	}
-	w := 0
-	if within {
-		w = 1
+	obs := run()
+	second := run()
+	if second != obs {
+		obs += " #2:" + strings.ReplaceAll(second, " ", "_")
 	}
-	obs := fmt.Sprintf("info %d %d %d", w, acc, req)
+	var mutated []string
+	if in.f.Cmp(f0) != 0 {
+		mutated = append(mutated, "factor")
+	}
+	if in.dCur.Cmp(dCur0) != 0 {
+		mutated = append(mutated, "dCur")
+	}
+	if in.dPrev.Cmp(dPrev0) != 0 {
+		mutated = append(mutated, "dPrev")
+	}
+	if len(mutated) > 0 {
+		obs += " mutated:" + strings.Join(mutated, ",")
+	}
+	if strings.HasPrefix(obs, "err:") {
+		return obs, "err"
+	}
 	// branch tag from the true (unwrapped) geometry of the range
 	tag := "unsupported"
 	if in.conf <= in.latest+1 && in.f.IsUint64() && in.f.Sign() > 0 {
